@@ -12,6 +12,8 @@ SIZES = {"h": 2, "r": 4, "e": 3, "w": 5, "a": 2, "b": 3}
 PROFILES = [
     ("restricted + unrestricted + continuous", {"p_r": 1.0, "p_h": 1.0, "p_w": 1.0, "p_z": 0.0, "p_e": 0.0, "sizes": SIZES, "max_cells": 2500}),
     ("period-varying leading axis", {"p_r": 1.0, "p_per_filter": 1.0, "p_h": 0.7, "T": [2, 3], "sizes": SIZES, "max_cells": 2500}),
+    ("several filters, longer horizon", {"p_r": 1.0, "p_per_filter": 1.0, "p_state_filter": 1.0, "p_q": 0.5, "T": [3, 4], "sizes": {**SIZES, "r": 3, "w": 3},
+                                         "p_z": 0.0, "max_cells": 1200}),
     ("two continuous states", {"p_w": 1.0, "p_z": 1.0, "p_h": 1.0, "p_r": 0.0, "sizes": SIZES}),
     ("three discrete states", {"p_r": 1.0, "p_h": 1.0, "p_e": 1.0, "p_w": 0.0, "p_z": 0.0, "sizes": SIZES, "max_cells": 2500}),
     ("random", {}),
